@@ -6,7 +6,7 @@
     version is canonical semver, every requirement path is a fixed point of CleanPath, and the requirements are
     the key-sorted association list of a map.  Go's nil and empty slices/maps are the same model value, so the
     "normalise" of the design is the identity here.  go-toml, x/mod/semver and path.Clean are modelled. *)
-From Dawn Require Import Config.Model Config.Proofs.
+From Dawn Require Import Config.Model Config.File Config.Proofs Config.ProofsFile.
 
 (** Every string value: decoding its encoding gives it back, whatever follows it in the document. *)
 Theorem string_roundtrip : forall s rest, utf8 s -> parse_string (encode_string s ++ rest) = Some (s, rest).
@@ -27,6 +27,35 @@ Print Assumptions config_roundtrip.
 Theorem write_stable : forall c, valid c -> option_map write (load (write c)) = Some (write c).
 Proof. exact Proofs.write_stable. Qed.
 Print Assumptions write_stable.
+
+(** Rewriting in place (dawn get, dawn tidy): [write_config_file old c] = the bytes at the path after
+    WriteConfigFile(path, c) when the path was in state [old] before ([None] = absent, [Some b] = a file holding
+    [b]: a longer or shorter earlier serialisation, a hand-written file with comments, anything).  The file left
+    behind is the serialisation of [c] and nothing else ... *)
+Theorem rewrite_ignores_previous_contents : forall old c, write_config_file old c = write c.
+Proof. exact write_config_file_eq. Qed.
+Print Assumptions rewrite_ignores_previous_contents.
+
+(** ... so loading the rewritten file yields the configuration written, whatever the file held before, and
+    writing the loaded configuration over it again gives the bytes of a write to a fresh path. *)
+Theorem rewrite_roundtrip : forall old c, valid c ->
+  load_config_file (Some (write_config_file old c)) = Some c /\
+  option_map (write_config_file (Some (write_config_file old c))) (load_config_file (Some (write_config_file old c)))
+  = Some (write_config_file None c).
+Proof. exact rewrite_roundtrip_full. Qed.
+Print Assumptions rewrite_roundtrip.
+
+(** Any history of rewrites of one path: the file holds exactly the last configuration written. *)
+Theorem rewrite_history : forall old cs c, valid c ->
+  rewrites old (cs ++ [c]) = Some (write c) /\ load_config_file (rewrites old (cs ++ [c])) = Some c.
+Proof. exact rewrite_history_full. Qed.
+Print Assumptions rewrite_history.
+
+(** WriteConfigFile's Fprintf calls, one after the other, are one write of the concatenation. *)
+Theorem consecutive_writes : forall content off a b, (off <= length content)%nat ->
+  write_at (write_at content off a) (off + length a) b = write_at content off (a ++ b).
+Proof. exact write_at_app. Qed.
+Print Assumptions consecutive_writes.
 
 (** ASCII strings with any control characters and quotes are within the quantifier. *)
 Theorem ascii_is_utf8 : forall s, Forall (fun b => b < 128) s -> utf8 s.
@@ -53,3 +82,26 @@ Qed.
 
 Example example_roundtrip : load (write example) = Some example.
 Proof. vm_compute. reflexivity. Qed.
+
+(** Why the model of os.Create truncates: writing over the old bytes WITHOUT emptying the file first is not a
+    rewrite.  tidy dropping the last requirement [b] of {a, b}: the new serialisation is a prefix of the old one,
+    the old tail survives, and the file still loads - as the OLD configuration. *)
+Definition two_reqs : config :=
+  mkConfig [] [] [] [mkReq [97] [97] [118; 49; 46; 50; 46; 51]; mkReq [98] [98] [118; 49; 46; 50; 46; 51]].
+Definition one_req : config := mkConfig [] [] [] [mkReq [97] [97] [118; 49; 46; 50; 46; 51]].
+
+Example truncation_is_needed :
+  valid two_reqs /\ valid one_req /\ two_reqs <> one_req /\
+  load (write_at (write two_reqs) 0 (write one_req)) = Some two_reqs /\
+  load_config_file (Some (write_config_file (Some (write two_reqs)) one_req)) = Some one_req.
+Proof.
+  assert (V2 : valid two_reqs).
+  { repeat split; try reflexivity; try (apply utf8_ascii; repeat constructor);
+      repeat (apply Forall_cons || apply Forall_nil); repeat split; try reflexivity;
+      apply utf8_ascii; repeat constructor. }
+  assert (V1 : valid one_req).
+  { repeat split; try reflexivity; try (apply utf8_ascii; repeat constructor);
+      repeat (apply Forall_cons || apply Forall_nil); repeat split; try reflexivity;
+      apply utf8_ascii; repeat constructor. }
+  split; [exact V2|]. split; [exact V1|]. split; [discriminate|]. split; vm_compute; reflexivity.
+Qed.
